@@ -779,6 +779,10 @@ pub struct ModFacts {
   pub rel: Vec<(String, bool)>,
   pub sm: SmFacts,
   pub notes: Vec<String>,
+  /// module-level names of the original that are not exported there and are still bound at module
+  /// level in the output (pulled in by reference) / no longer bound (dropped)
+  pub pulled: usize,
+  pub dropped: usize,
 }
 
 /// Facts about every JS module of the graph after fast check: the emitted
@@ -836,6 +840,16 @@ pub fn closure_facts(graph: &ModuleGraph) -> Vec<ModFacts> {
         Ok(orig) => {
           let (a, b) = idents_with_ctxt(&orig, orig.top_level_context());
           f.top_orig = a.into_iter().chain(b).collect();
+          if let Ok(p) = &parsed {
+            let (oa, ob) = idents_with_ctxt(p, p.top_level_context());
+            let out_top: BTreeSet<String> = oa.into_iter().chain(ob).collect();
+            let exported = module_table(&orig).own_exports;
+            for n in &f.top_orig {
+              if !exported.contains(n) {
+                if out_top.contains(n) { f.pulled += 1 } else { f.dropped += 1 }
+              }
+            }
+          }
         }
         Err(e) => f.notes.push(format!("original does not parse: {}", e)),
       }
@@ -1044,6 +1058,7 @@ pub fn gen_world(rng: &mut Rng, cfg: &GenCfg) -> (FcWorld, GenInfo) {
         .collect()
     })
     .collect();
+  let mut js_extra: Vec<(String, String)> = vec![];
   for p in 0..mods.len() {
     let n_mods = mods[p].len();
     for k in 0..n_mods {
@@ -1138,6 +1153,22 @@ pub fn gen_world(rng: &mut Rng, cfg: &GenCfg) -> (FcWorld, GenInfo) {
       mods[p][k].header = header;
       mods[p][k].footer = footer;
     }
+    // a JavaScript module with a declaration file (@ts-self-types): importers name the .js file,
+    // the emitted text must name the types module
+    if rng.chance(25) {
+      let k = rng.below(n_mods);
+      if !mods[p][k].file.ends_with(".d.ts") {
+        let base = info.pkgs[p].base.clone();
+        js_extra.push((format!("{}js{}.js", base, p), format!("/* @ts-self-types=\"./js{}.d.ts\" */\nexport class J{} {{ constructor() {{ this.v = 1; }} }}\n", p, p)));
+        js_extra.push((format!("{}js{}.d.ts", base, p), format!("export declare class J{} {{ v: number; }}\nexport type JT{} = string | J{};\ndeclare class NotUsed{} {{}}\n", p, p, p, p)));
+        let h = format!("import {{ J{} }} from \"./js{}.js\";\nimport type {{ JT{} }} from \"./js{}.js\";\n", p, p, p, p);
+        mods[p][k].header.push_str(&h);
+        mods[p][k].imp_types.push(format!("J{}", p));
+        mods[p][k].imp_types.push(format!("JT{}", p));
+        mods[p][k].imp_values.push(format!("J{}", p));
+        count(&mut info, "js_with_declaration_file");
+      }
+    }
   }
   // bodies
   for p in 0..mods.len() {
@@ -1161,29 +1192,55 @@ pub fn gen_world(rng: &mut Rng, cfg: &GenCfg) -> (FcWorld, GenInfo) {
         v
       };
       let class_names: Vec<String> = mods[p][k].decls.iter().filter(|d| d.kind == 2).map(|d| d.name.clone()).collect();
+      // (class name, name of its public property) for `typeof C.prototype.pubN`
+      let class_members: Vec<(String, String)> =
+        mods[p][k].decls.iter().enumerate().filter(|(_, d)| d.kind == 2).map(|(j, d)| (d.name.clone(), format!("pub{}", j))).collect();
+      let iface_names: Vec<String> = mods[p][k].decls.iter().filter(|d| d.kind == 0).map(|d| d.name.clone()).collect();
+      let enum_names: Vec<String> = mods[p][k].decls.iter().filter(|d| d.kind == 5).map(|d| d.name.clone()).collect();
+      let mut type_names = type_names;
+      for e in &enum_names {
+        type_names.push(format!("{}.A", e));
+      }
+      for (c, m) in &class_members {
+        type_names.push(format!("typeof {}.prototype.{}", c, m));
+      }
       let n = mods[p][k].decls.len();
       for j in 0..n {
         let d = mods[p][k].decls[j].clone();
         let ex = if d.exported { "export " } else { "" };
         let dc = if ambient { "declare " } else { "" };
         let mut ty = |rng: &mut Rng| gen_type(rng, &type_names, &value_names, 2);
+        let generic = |rng: &mut Rng, bound: String| if rng.chance(25) { (format!("<T extends {} = {}>", bound, bound), "T".to_string()) } else { (String::new(), bound) };
         let text = match d.kind {
           0 => {
             count(&mut info, "interface");
-            let ext = if rng.chance(20) && !type_names.is_empty() {
-              let t = rng.pick(&type_names).clone();
-              if t.starts_with("import(") || t == d.name { String::new() } else { format!(" extends {}", t) }
+            let others: Vec<&String> = iface_names.iter().chain(class_names.iter()).filter(|c| **c != d.name).collect();
+            let ext = if rng.chance(30) && !others.is_empty() {
+              count(&mut info, "interface_extends");
+              format!(" extends {}", rng.pick(&others))
             } else {
               String::new()
             };
-            // extends must name an interface/class-like type; keep it safe: only local interface/class names
-            let ext = if ext.contains('.') || ext.is_empty() { String::new() } else { ext };
-            let _ = ext;
-            format!("{}interface {} {{\n  a: {};\n  b?: {};\n  m(x: {}): {};\n}}\n", ex, d.name, ty(rng), ty(rng), ty(rng), ty(rng))
+            let b = ty(rng);
+            let (gp, gt) = generic(rng, b);
+            format!(
+              "{}interface {}{}{} {{\n  a: {};\n  b?: {};\n  readonly c: {};\n  m(x: {}): {};\n  [key: string]: unknown;\n}}\n",
+              ex, d.name, gp, ext, ty(rng), ty(rng), gt, ty(rng), ty(rng)
+            )
           }
           1 => {
             count(&mut info, "type_alias");
-            format!("{}type {} = {} | {};\n", ex, d.name, ty(rng), ty(rng))
+            let b = ty(rng);
+            let (gp, gt) = generic(rng, b);
+            let body = match rng.below(7) {
+              0 => format!("[{}, {}?]", ty(rng), ty(rng)),
+              1 => format!("{} extends {} ? {} : {}", gt, ty(rng), ty(rng), ty(rng)),
+              2 => format!("{{ [K in keyof {}]?: {} }}", ty(rng), ty(rng)),
+              3 => format!("Partial<{}> & {{ tag: `x-${{string}}` }}", ty(rng)),
+              4 if !iface_names.is_empty() => format!("{}[\"a\"] | keyof {}", rng.pick(&iface_names), rng.pick(&iface_names)),
+              _ => format!("{} | {}", gt, ty(rng)),
+            };
+            format!("{}type {}{} = {};\n", ex, d.name, gp, body)
           }
           2 => {
             count(&mut info, "class");
@@ -1193,33 +1250,66 @@ pub fn gen_world(rng: &mut Rng, cfg: &GenCfg) -> (FcWorld, GenInfo) {
             } else {
               String::new()
             };
+            let imp = if rng.chance(25) && !iface_names.is_empty() && !ambient {
+              // (an index signature keeps `implements` type-correct enough; fast check does not type check)
+              count(&mut info, "class_implements");
+              format!(" implements {}", rng.pick(&iface_names))
+            } else {
+              String::new()
+            };
             // (a class that extends gets no constructor: the base class has one with a parameter)
             let ctor = if ext.is_empty() {
-              if ambient { format!("  constructor(p: {});\n", ty(rng)) } else { format!("  constructor(p: {}) {{ {}void p; }}\n", ty(rng), "") }
+              if ambient {
+                format!("  constructor(p: {});\n", ty(rng))
+              } else if rng.chance(30) {
+                count(&mut info, "ctor_param_props");
+                format!("  constructor(public pp: {}, private qq: {}, readonly rr: {} = null as any) {{}}\n", ty(rng), ty(rng), ty(rng))
+              } else {
+                format!("  constructor(p: {}) {{ void p; }}\n", ty(rng))
+              }
             } else {
               String::new()
             };
             let body = |s: &str| if ambient { ";".to_string() } else { format!(" {{ {} }}", s) };
             let init = |s: &str| if ambient { String::new() } else { format!(" = {}", s) };
+            let overloads = if rng.chance(20) {
+              count(&mut info, "method_overloads");
+              if ambient {
+                format!("  ov(a: {}): {};\n  ov(a: {}, b: {}): {};\n", ty(rng), ty(rng), ty(rng), ty(rng), ty(rng))
+              } else {
+                format!("  ov(a: {}): {};\n  ov(a: {}, b: {}): {};\n  ov(a: any, b?: any): any {{ return [a, b]; }}\n", ty(rng), ty(rng), ty(rng), ty(rng), ty(rng))
+              }
+            } else {
+              String::new()
+            };
             format!(
-              "{}{}class {}{} {{\n  pub{}: {}{};\n  static st: {}{};\n  private priv: {}{};\n{}  meth(x: {}): {}{}\n  get acc(): {}{}\n  private hidden(y: {}): {}{}\n}}\n",
+              "{}{}class {}{}{} {{\n  pub{}: {}{};\n  static st: {}{};\n  protected prot?: {};\n  private priv: {}{};\n{}{}  meth(x: {}, y?: {}): {}{}\n  static smeth(x: {}): {}{}\n  get acc(): {}{}\n  set acc(v: {}){}\n  private hidden(y: {}): {}{}\n}}\n",
               ex,
               dc,
               d.name,
               ext,
+              imp,
               j,
               ty(rng),
               init("null as any"),
               ty(rng),
               init("null as any"),
               ty(rng),
+              ty(rng),
               init("null as any"),
               ctor,
+              overloads,
+              ty(rng),
+              ty(rng),
+              ty(rng),
+              body("return null as any;"),
               ty(rng),
               ty(rng),
               body("return null as any;"),
               ty(rng),
               body("return null as any;"),
+              ty(rng),
+              body(""),
               ty(rng),
               ty(rng),
               body("return null as any;"),
@@ -1237,23 +1327,49 @@ pub fn gen_world(rng: &mut Rng, cfg: &GenCfg) -> (FcWorld, GenInfo) {
               )
             } else {
               let uses = if value_names.is_empty() { "null".to_string() } else { rng.pick(&value_names).clone() };
-              format!("{}function {}(a: {}, b: {} = {}): {} {{ void {}; return null as any; }}\n", ex, d.name, ty(rng), "number", "1", ty(rng), uses)
+              let b = ty(rng);
+              let (gp, gt) = generic(rng, b);
+              let expando = if rng.chance(15) {
+                count(&mut info, "expando_property");
+                format!("{}.extra = \"s\";\n", d.name)
+              } else {
+                String::new()
+              };
+              format!(
+                "{}function {}{}(a: {}, b: {} = {}, ...rest: {}[]): {} {{ void {}; return null as any; }}\n{}",
+                ex, d.name, gp, gt, "number", "1", ty(rng), ty(rng), uses, expando
+              )
             }
           }
           4 => {
             count(&mut info, "const");
             if ambient {
               format!("{}{}const {}: {};\n", ex, dc, d.name, ty(rng))
-            } else if rng.chance(30) {
-              format!("{}const {} = {};\n", ex, d.name, rng.pick(&["1", "\"s\"", "true", "1n"]))
             } else {
-              let uses = if value_names.is_empty() || rng.chance(50) { "null as any".to_string() } else { format!("{} as any", rng.pick(&value_names)) };
-              format!("{}const {}: {} = {};\n", ex, d.name, ty(rng), uses)
+              match rng.below(6) {
+                0 => format!("{}const {} = {};\n", ex, d.name, rng.pick(&["1", "\"s\"", "true", "1n", "`t`", "-1"])),
+                1 => {
+                  count(&mut info, "const_arrow");
+                  format!("{}const {} = (a: {}, b?: {}): {} => {{ return null as any; }};\n", ex, d.name, ty(rng), ty(rng), ty(rng))
+                }
+                2 => {
+                  count(&mut info, "const_object");
+                  format!("{}const {} = {{ a: 1, b: \"x\", c: [1, 2] }} as const;\n", ex, d.name)
+                }
+                3 => {
+                  count(&mut info, "const_function_expr");
+                  format!("{}const {} = function (a: {}): {} {{ return null as any; }};\n", ex, d.name, ty(rng), ty(rng))
+                }
+                _ => {
+                  let uses = if value_names.is_empty() || rng.chance(50) { "null as any".to_string() } else { format!("{} as any", rng.pick(&value_names)) };
+                  format!("{}const {}: {} = {};\n", ex, d.name, ty(rng), uses)
+                }
+              }
             }
           }
           5 => {
             count(&mut info, "enum");
-            format!("{}{}enum {} {{ A, B = 2, C }}\n", ex, dc, d.name)
+            format!("{}{}{}enum {} {{ A, B = 2, C }}\n", ex, dc, if rng.chance(20) { "const " } else { "" }, d.name)
           }
           6 => {
             count(&mut info, "namespace");
@@ -1264,6 +1380,9 @@ pub fn gen_world(rng: &mut Rng, cfg: &GenCfg) -> (FcWorld, GenInfo) {
             s.push_str(&format!("  type Hidden = {};\n", ty(rng)));
             if rng.chance(40) {
               s.push_str(&format!("  export namespace Inner {{ export interface Deep {{ v: {}; }} }}\n", ty(rng)));
+            }
+            if rng.chance(30) {
+              s.push_str(&format!("  export {}function nsfn(a: {}): {}{}\n", "", ty(rng), ty(rng), if ambient { ";" } else { " { return null as any; }" }));
             }
             s.push_str("}\n");
             s
@@ -1297,6 +1416,14 @@ pub fn gen_world(rng: &mut Rng, cfg: &GenCfg) -> (FcWorld, GenInfo) {
             footer.push_str(&format!("export default {};\n", d.name));
             count(&mut info, "export_default");
           }
+        } else if rng.chance(12) && !mods[p][k].file.ends_with(".d.ts") {
+          let t = gen_type(rng, &type_names, &value_names, 2);
+          if rng.chance(50) {
+            footer.push_str(&format!("export default class {{\n  v: {} = null as any;\n}}\n", t));
+          } else {
+            footer.push_str(&format!("export default function (a: {}): void {{}}\n", t));
+          }
+          count(&mut info, "export_default_declaration");
         }
       }
       if footer.contains("export default") {
@@ -1352,6 +1479,9 @@ pub fn gen_world(rng: &mut Rng, cfg: &GenCfg) -> (FcWorld, GenInfo) {
       root.push_str(&format!("import \"jsr:{}@1/{}\";\n", pkg.name, &k[2..]));
     }
   }
+  for (u, t) in &js_extra {
+    world.add(u, t);
+  }
   world.add("file:///mod.ts", &root);
   (world, info)
 }
@@ -1388,7 +1518,8 @@ fn gen_atom(rng: &mut Rng, types: &[String]) -> String {
 pub fn dump(args: &[String]) {
   let world = if args[0] == "gen" {
     let mut rng = Rng::for_case(args[1].parse().unwrap(), args[2].parse().unwrap());
-    let (w, _) = gen_world(&mut rng, &GenCfg { max_pkgs: 3, fail_pct: 12, cross_pkg_star: true, workspace: false });
+    let workspace = rng.chance(10);
+    let (w, _) = gen_world(&mut rng, &GenCfg { max_pkgs: 3, fail_pct: 12, cross_pkg_star: true, workspace });
     for (k, v) in &w.files {
       println!("# {}\n{}", k, v.0);
     }
